@@ -575,7 +575,7 @@ pub fn spec() -> Spec<Case> {
     Spec {
         id: "C16",
         level: "exploration",
-        rule: "two generated families. Pipeline: a file of 0-13 unique-token lines (ASCII/multibyte/combining/300-char/diff-lookalike styles, LF/CRLF, with/without final newline) derived through 1-8 edits by a human and up to 3 sessions (insert/delete/replace/intra-line token add/delete/re-indent/trailing-ws/filler/EOL flip/final-newline toggle), replaying the checkpoint pipeline (fill -> update_attributions -> line projection) after every edit; oracle = content-addressed model (unchanged text keeps its author, new non-blank text belongs to the reporter, whitespace-only edits change nothing), identical-text invariance, bounds/char boundaries, line->char->line round trip. Arbitrary: unrelated UTF-8 texts and prior sets (overlapping, unsorted, out of range, zero-length, splitting multibyte chars): totality, bounds, line ranges inside the text. non-trivial = >=2 authors and >=2 steps, or multibyte text / >=2 priors; distinct by case hash".into(),
+        rule: "two generated families. Pipeline: a file of 0-13 unique-token lines (ASCII/multibyte/combining/300-char/diff-lookalike styles, LF/CRLF, with/without final newline) derived through 1-8 edits by a human and up to 3 sessions (insert/delete/replace/intra-line token add/delete/re-indent/trailing-ws/filler/EOL flip/final-newline toggle), replaying the checkpoint pipeline (fill -> update_attributions -> line projection) after every edit; oracle = content-addressed model (unchanged text keeps its author, new non-blank text belongs to the reporter, whitespace-only edits change nothing), identical-text invariance, bounds/char boundaries, line->char->line round trip. Arbitrary: unrelated UTF-8 texts and prior sets (overlapping, nested, unsorted, out of range, zero-length, splitting multibyte chars): totality, bounds, line ranges inside the text, and the fill oracle (attribute_unattributed_ranges keeps every prior and adds ranges of the filling author that cover exactly the characters no prior touches - byte coverage compared, not segmentation). non-trivial = >=2 authors and >=2 steps, or multibyte text / >=2 priors; distinct by case hash".into(),
         cases_quick: 100_000,
         cases_thorough: 3_000_000,
         shrink_iters: 3000,
